@@ -324,6 +324,28 @@ Section BatchR.
       try (destruct (D eq_refl); subst); reflexivity.
   Qed.
 
+
+  (* ------------------------------------------------------------------ what the reference is *)
+
+  Lemma fit_sets_reference : forall c s X, snd (step c s (Fit X)) = Ok ONone ->
+    eff_ref P Prm c (fst (step c s (Fit X))) =
+      Some (match d_family (describe (c_cls Prm c)) with FIKS => lib_sort X | _ => X end).
+  Proof.
+    intros c s X H. unfold eff_ref, Batch.step in *.
+    destruct (c_cls Prm c) eqn:Ecl; simpl in *; unfold Batch.batch_fit in *; simpl in *; brk_all; auto.
+  Qed.
+
+  Lemma reference_changes_only_by_fit_reset : forall c s o, is_fit P o = false -> o <> Rst ->
+    eff_ref P Prm c (fst (step c s o)) = eff_ref P Prm c s.
+  Proof.
+    intros c s o Hf Hr. destruct o as [X|X|v|]; simpl in Hf; try discriminate; try congruence.
+    - rewrite compare_pure. reflexivity.
+    - unfold eff_ref, Batch.step. destruct (c_cls Prm c) eqn:Ecl; simpl; brk_all; auto.
+  Qed.
+
+  Lemma reset_clears_reference : forall c s, eff_ref P Prm c (fst (step c s Rst)) = None.
+  Proof. intros. unfold eff_ref, Batch.step. destruct (c_cls Prm c); reflexivity. Qed.
+
   (* ------------------------------------------------------------------ dimension mismatch at compare *)
 
   Definition ref_attr (c : cfg) (s : st) : Prop := forall r, eff_ref P Prm c s = Some r -> a_attr P r = true.
